@@ -452,6 +452,15 @@ def rule_tracker_lifecycle(ctx, crate, rule="R-TRACKER-LIFECYCLE"):
                 late = [w for w in st_writes if w in x.reach_after(c.bb) and c.bb not in x.reach_after(w)]
                 ctx.check(not late, rule, "reset-sees-reset-state", x.name, c.loc(), "trackers are reset after the bar's own state was reset (they receive the current state)",
                           "ProgressTracker::reset is called before the bar's own state is reset: the tracker receives the stale position/status", cfg)
+                # "reset together with the bar": on the CFG specialised to Reset::All every path to the return enters the loop over the
+                # trackers - whatever the position or status (a tracker's own state, tick counts say, does not depend on them: seed C11n)
+                R_all, avoid_all = K.variant_reach(x, crate, "state::Reset", cond, want_avoid=True)
+                loop_ = {c.bb} | {y for y in x.reach_after(c.bb) if c.bb in x.reach_after(y)}
+                heads = [k.bb for k in x.calls(r"std::iter::Iterator::next") if k.bb in loop_]
+                uncond = bool(heads) and not (x.reach([0], avoid=heads, avoid_edges=set(avoid_all)) & set(x.return_blocks()))
+                ctx.check(uncond, rule, "reset-unconditional", x.name, c.loc(), "reset() resets the custom trackers on every path",
+                          "reset() resets the custom trackers only under a condition on the bar's state (position, status): a tracker with state of its own "
+                          "(tick counts, peak rate) keeps its pre-reset value next to freshly reset built-in keys", cfg)
             else:
                 rec = x.calls(r"state::Estimator::record")
                 late = [r for r in rec if r.bb in x.reach_after(c.bb) and c.bb not in x.reach_after(r.bb)]
